@@ -220,8 +220,10 @@ def decision_table(fnode, max_atoms=10):
                     env['$' + s.targets[0].id] = bool(_value(s.value, env))
                 except KeyError:
                     pass
-            elif isinstance(s, (ast.Assign, ast.AnnAssign, ast.Pass)):
+            elif isinstance(s, (ast.Assign, ast.AnnAssign, ast.Pass, ast.Expr, ast.AugAssign)):
                 continue            # other locals: already written out at their uses
+            elif isinstance(s, (ast.For, ast.While)) and not any(isinstance(x, (ast.Return, ast.Raise)) for x in ast.walk(s)):
+                continue            # a loop that cannot leave the function: an opaque step
             else:
                 raise CannotAnalyse(f'decision table: statement {type(s).__name__}')
         return None
